@@ -39,7 +39,16 @@ var (
 	shapePrimary = []int{kAddr, kAddr, kAddr, kDom, kDom, kGrp, kGrp, kGrp, kAddr, kAddr, kGrp, kDom}
 
 	shapeLens      = []int{2, 2, 3, 4, 5, 8, 13, 24, 40}
-	shapeCaseModes = []string{"mixed-case", "mixed-case", "mixed-case", "case-duplicates", "all-lower", "all-upper"}
+	shapeCaseModes = []string{"mixed-case", "mixed-case", "mixed-case", "case-duplicates", "all-lower", "all-upper", "special-chars", "special-chars"}
+
+	// CHARACTERS in entries ("special-chars" lists). Group names are free text: everything that means something
+	// in a query string, a path, a header, YAML or a shell, literal percent-escapes, non-ASCII, tab, and the comma
+	// (inexpressible through /profile: counted don't-care). The query-significant ones come first and are drawn
+	// half of the time. Addresses get characters that are legal in a local part, domains in a host name.
+	shapeGroupChars = []string{"&", "+", "=", ";", "%", "#", "?", " & ", "+=", "&amp;",
+		"/", "\\", ":", " ", "\"", "'", "<", ">", "|", "*", "@", "%2C", "%26", "%20", "ü", "Ж", "\t", ",", "..", "$"}
+	shapeAddrChars = []string{"+", "&", "=", "%", "#", "'", "/", "!", "?", "+tag+", "%40", "_", "-", "$", "*", "~"}
+	shapeDomChars  = []string{"-", "--", "9", "_", "0-"}
 	shapeOrders    = []string{"sorted", "reverse", "shuffled", "sorted-by-lower"}
 
 	shapePositions = []string{"cfg-first", "cfg-middle", "cfg-last", "sorted-first", "sorted-middle", "sorted-last",
@@ -109,7 +118,33 @@ func shapeCores(r *rand.Rand, n int) []string {
 func genShapeList(r *rand.Rand, kind int, uni universe, n int, caseMode, order string) []string {
 	cores := shapeCores(r, n)
 	list := make([]string, 0, n+2)
+	inject := func(c, ch string) string {
+		if len(c) < 2 {
+			return c + ch + "x"
+		}
+		at := 1 + r.Intn(len(c)-1)
+		return c[:at] + ch + c[at:]
+	}
 	for i, c := range cores {
+		if caseMode == "special-chars" {
+			switch kind {
+			case kAddr:
+				c = inject(c, shapeAddrChars[r.Intn(len(shapeAddrChars))])
+			case kDom:
+				if r.Intn(2) == 0 {
+					c = inject(c, shapeDomChars[r.Intn(len(shapeDomChars))])
+				}
+			default:
+				if r.Intn(2) == 0 {
+					c = inject(c, shapeGroupChars[r.Intn(10)]) // query-significant
+				} else {
+					c = inject(c, shapeGroupChars[r.Intn(len(shapeGroupChars))])
+				}
+				if r.Intn(3) == 0 {
+					c += "@" + uni.D // group addresses, as in the docs
+				}
+			}
+		}
 		switch kind {
 		case kAddr:
 			list = append(list, c+"@"+[]string{uni.D, uni.D, uni.O, uni.D2}[r.Intn(4)])
@@ -234,6 +269,9 @@ func genShapeConfig(ci int, seed int64) []*shapeUpstream {
 		}
 		u.sigTag = " list=" + kindName(su.primary) + ":" + su.caseMode
 		u.fixedOneIn = 2
+		if su.caseMode == "special-chars" {
+			u.fixedOneIn = 8 // what matters there is the question the authenticator decodes: mostly faithful answers
+		}
 		u.spec = sut.UpstreamSpec{Service: fmt.Sprintf("sh%dx%d", ci, i), From: u.host,
 			AllowedEmailAddresses: append([]string(nil), u.rules.Addresses...), AllowedEmailDomains: append([]string(nil), u.rules.Domains...),
 			AllowedGroups: append([]string(nil), u.rules.Groups...)}
@@ -449,6 +487,12 @@ func runShapeCase(rep *vh.Report, env vh.Env, ps *sut.ProxyStack, su *shapeUpstr
 	switch kindRef {
 	case pass:
 		rep.Count("shape_reference_admits_by_"+kn, 1)
+		if su.caseMode == "special-chars" {
+			rep.Count("shape_reference_admits_by_"+kn+"_through_entry_with_special_characters", 1)
+			if su.primary == kGrp && !outside && strings.ContainsAny(target, "&+=;%#?") {
+				rep.Count("shape_member_of_listed_group_with_query_significant_character", 1)
+			}
+		}
 		if su.changing {
 			rep.Count("shape_reference_admits_by_"+kn+"_on_order_changing_list", 1)
 		}
